@@ -14,8 +14,9 @@ import BadgerModel.Log
 * Table blocks and the table index (block base keys = user keys, bloom filter): encrypted as a
   whole with a fresh random 16-byte IV appended in the clear.
 * Key registry: `IV ‖ E_master(sanity text) ‖ records(data key encrypted with the master key
-  under the data key's own IV)`; `LatestDataKey` mirrored branch by branch, including what it
-  returns when the rotation interval exceeds the age of the Unix epoch (`kr.dataKeys[0]`, nil).
+  under the data key's own IV)`; `LatestDataKey` mirrored branch by branch (the rule before fix
+  497bf84, which returned the nil entry `kr.dataKeys[0]` on a fresh registry when the rotation
+  interval exceeds the age of the Unix epoch, is kept as `latestDataKeyOld`).
 * Everything written to a file is classified symbolically (`Payload`) and the classification
   is tied to the byte-level record model of `BadgerModel/Log.lean` (`realize`).
 -/
@@ -95,18 +96,34 @@ def sinceNs (nowNs : Nat) (lastCreated : Nat) : Int :=
   let d : Int := (nowNs : Int) - (lastCreated : Int) * 1000000000
   if d > maxDuration then maxDuration else if d < minDuration then minDuration else d
 
+/-- A fresh data key with the next id, appended to the registry. -/
+def Registry.newDataKey (r : Registry) (nowNs : Nat) (freshKey : Bytes) (freshIv : Nat) :
+    Registry × Option DataKey :=
+  let dk : DataKey := { id := r.nextKeyID + 1, data := freshKey, createdAt := nowNs / 1000000000, iv := freshIv }
+  ({ r with nextKeyID := r.nextKeyID + 1, lastCreated := dk.createdAt,
+            dataKeys := r.dataKeys.filter (fun k => k.id != dk.id) ++ [dk] }, some dk)
+
 /-- `kr.LatestDataKey()` at wall-clock time `nowNs`, with the random key material and IV the
-    call would draw. Mirrors the code: no master key → nil; last key younger than the rotation
-    interval → `kr.dataKeys[kr.nextKeyID]` (a nil map entry when no key was ever created);
-    otherwise a new key with the next id. -/
+    call would draw. Mirrors the code (since fix 497bf84): no master key → nil; the key with id
+    `nextKeyID` *exists* and is younger than the rotation interval → that key; otherwise (no key
+    yet, or too old) a new key with the next id. -/
 def Registry.latestDataKey (r : Registry) (nowNs : Nat) (freshKey : Bytes) (freshIv : Nat) :
     Registry × Option DataKey :=
   if r.master = [] then (r, none)
+  else match r.lookup r.nextKeyID with
+    | some k =>
+      if sinceNs nowNs r.lastCreated < r.rotationNs then (r, some k)
+      else r.newDataKey nowNs freshKey freshIv
+    | none => r.newDataKey nowNs freshKey freshIv
+
+/-- The rule before fix 497bf84 (finding F23a), kept for the regression witness: the age test
+    came first and returned `kr.dataKeys[kr.nextKeyID]` whatever it was — nil on a fresh
+    registry (`lastCreated = 0`) when the rotation interval exceeds the age of the Unix epoch. -/
+def Registry.latestDataKeyOld (r : Registry) (nowNs : Nat) (freshKey : Bytes) (freshIv : Nat) :
+    Registry × Option DataKey :=
+  if r.master = [] then (r, none)
   else if sinceNs nowNs r.lastCreated < r.rotationNs then (r, r.lookup r.nextKeyID)
-  else
-    let dk : DataKey := { id := r.nextKeyID + 1, data := freshKey, createdAt := nowNs / 1000000000, iv := freshIv }
-    ({ r with nextKeyID := r.nextKeyID + 1, lastCreated := dk.createdAt,
-              dataKeys := r.dataKeys.filter (fun k => k.id != dk.id) ++ [dk] }, some dk)
+  else r.newDataKey nowNs freshKey freshIv
 
 /-! ### registry file -/
 
